@@ -33,7 +33,7 @@ Extraction "skv_model.ml"
   Params.TBL_FULL_FOOTER_LENGTH Params.VLOG_HEADER_SIZE Params.VLOG_VALUE_POINTER_SIZE
   Pipeline.pstep Pipeline.pinit Pipeline.prun_pos Pipeline.stutter Pipeline.env_label PipelineExplore.succs PipelineExplore.progress_succs
   PipelineExplore.safe_ok PipelineExplore.no_overflow_ok PipelineExplore.deadlocked PipelineExplore.in_flight PipelineExplore.panicking
-  Proto.proto_okb Proto.proto_err Proto.prun Proto.run_from Proto.papply Proto.okb Proto.viol Proto.recover Proto.do_crash Proto.st0 Proto.crash_safe_b Proto.recovery_plain Proto.okb_from Proto.dp Proto.dpr Proto.alive Proto.prefix_bound
+  Proto.proto_okb Proto.proto_err Proto.prun Proto.run_from Proto.papply Proto.okb Proto.viol Proto.recover Proto.do_crash Proto.st0 Proto.crash_safe_b Proto.recovery_plain Proto.recovery_full Proto.split_pieces Proto.okb_from Proto.dp Proto.dpr Proto.alive Proto.prefix_bound
   VlogPtr.vpointer_encode VlogPtr.vpointer_decode VlogPtr.vpointer_in_range VlogPtr.vloc_encode VlogPtr.vloc_decode VlogPtr.vloc_is_pointer VlogPtr.vloc_with_pointer
   VlogPtr.vloc_inline VlogPtr.vloc_pointer_of VlogPtr.maybe_separate VlogPtr.vlog_params_ok VlogPtr.vheader_bytes VlogPtr.nlen
   Vlog.vs0 Vlog.vs_cleanup Vlog.venc_classify Vlog.set_tables Vlog.min_oldest Vlog.table_oldest Vlog.find_file Vlog.find_table
